@@ -134,6 +134,8 @@ let parse_op (o : string) (impl_step : string) : zop =
         | ["safe"] -> LSafe | ["reuse"; r] -> LReuse (nat_of_int (int_of_string r))
         | ["incr"; r] -> LIncr (nat_of_int (int_of_string r)) | _ -> failwith "lmode") in
     ZLin (z_of_int code, nat 2, nat 3, m, z_of_int (refusal impl_step))
+  | "tmul" -> (* tmul:<a>:<b>:<axesA>:<axesB> = a.TensorMul(b, axesA, axesB) *)
+    ZTensorMul (nat 1, nat 2, zs f.(3), zs f.(4), z_of_int (refusal impl_step))
   | "inner" -> ZInner (nat 1, nat 2, z_of_int (refusal impl_step))
   | "trace" -> ZTrace (nat 1, z_of_int (refusal impl_step))
   | "stack" -> ZStack (nat 1, z_of_int (int_of_string f.(2)), List.map (fun i -> nat_of_int i) (ints f.(3)))
@@ -268,7 +270,7 @@ let operand_ids (o : string) : int list =
   | "stack" | "concat" -> int_of_string f.(1) :: ints f.(3)
   | "repeat" | "trace" -> [int_of_string f.(1)]
   | "lin" -> [int_of_string f.(2); int_of_string f.(3)]
-  | "dot" -> [int_of_string f.(1); int_of_string f.(2)]
+  | "dot" | "tmul" -> [int_of_string f.(1); int_of_string f.(2)]
   | "inner" -> [int_of_string f.(1); int_of_string f.(2)]
   | _ -> (try [int_of_string f.(1)] with _ -> [])
 
